@@ -111,7 +111,9 @@ def build_loss(rec, derivative_keys=None):
     pkeys = [f"k{i + 1}" for i in range(len(rec["th"]))]
     ot = None
     if rec["ot"] == "affine":
-        ot = lambda i, o, p: o * p.eq_params["k1"] + p.eq_params["k2"]
+        # jnp.sum of a single value is that value: a network that is (wrongly) handed a whole parameter TABLE instead of its row does not
+        # broadcast to the right answer by accident
+        ot = lambda i, o, p: o * jnp.sum(p.eq_params["k1"]) + jnp.sum(p.eq_params["k2"])
     lo, hi = rec["sol"]
     spinn = rec.get("net") == "spinn"
     if spinn:
@@ -221,7 +223,10 @@ def build_loss(rec, derivative_keys=None):
                                                 observations=wt(w["obs"]), initial_condition=wt(w["ic"]))
         if rec["ic"]["on"]:
             u0 = rec["ic"]["u0"]
-            kw.update(initial_condition_fun=lambda x: jnp.stack([polyeval(c, [x[..., i] for i in range(dim)]) + 0.0 * x[..., 0] for c in u0], axis=-1))
+            if rec.get("icret") == "grid":        # values on the grid of points, no component axis (one-output separable network)
+                kw.update(initial_condition_fun=lambda x: polyeval(u0[0], [x[..., i] for i in range(dim)]) + 0.0 * x[..., 0])
+            else:
+                kw.update(initial_condition_fun=lambda x: jnp.stack([polyeval(c, [x[..., i] for i in range(dim)]) + 0.0 * x[..., 0] for c in u0], axis=-1))
         loss = jinns.loss.LossPDENonStatio(u=u, dynamic_loss=dyn, loss_weights=lw, obs_slice=jnp.s_[osl[0] - 1:osl[1]], params=params,
                                            derivative_keys=derivative_keys, **kw)
     # batch
@@ -312,7 +317,18 @@ def build_sysloss(rec, dk_dict=None, onehot=None):
         pd = jinns.parameters.ParamsDict(nn_params={k: u.init_params() for k, u in u_dict.items()},
                                          eq_params={k: jnp.array(float(v)) for k, v in zip(pkeys, rec["th"])})
 
-    def mk_eq(R, scalar=False):
+    def mk_eq(R, scalar=False, het=None):
+        hmap = None
+        if het and any(len(h) for h in het):
+            def mk_h(h):
+                fun = lambda inputs, p: polyeval(h, [inputs[i] for i in range(nin)] + [jnp.squeeze(p.eq_params[k]) for k in pkeys])
+                if lkind == "ode":
+                    return lambda t, ud, p: fun(jnp.atleast_1d(t), p)
+                if lkind == "statio":
+                    return lambda x, ud, p: fun(x, p)
+                return lambda t, x, ud, p: fun(jnp.concatenate([t, x]), p)
+            hmap = {k: mk_h(h) for k, h in zip(pkeys, het) if len(h)}
+
         def resid(inputs, ud, p):
             th = [jnp.squeeze(p.eq_params[k]) for k in pkeys]
             us = []
@@ -338,9 +354,9 @@ def build_sysloss(rec, dk_dict=None, onehot=None):
             class Eq(PDENonStatio):
                 def equation(self, t, x, ud, p):       # documented order: (t, x, u_dict, params_dict)
                     return resid(jnp.concatenate([t, x]), ud, p)
-        return Eq(Tmax=float(rec.get("Tmax", 1)))
+        return Eq(Tmax=float(rec.get("Tmax", 1)), eq_params_heterogeneity=hmap)
 
-    dyn = {e["name"]: mk_eq(e["R"], bool(e.get("scalar"))) for e in rec["eqs"]}
+    dyn = {e["name"]: mk_eq(e["R"], bool(e.get("scalar")), e.get("het")) for e in rec["eqs"]}
     kw = {}
     scalar = rec["wform"] != "dict"
     rev = (lambda items: list(items)[::-1]) if rec.get("wrev") else (lambda items: list(items))
@@ -486,6 +502,8 @@ def run_sysplain(rec):
     out = dict(rec)
     out["ok"], out["exc"], out["detail"] = True, "", ""
     lk, net, seed, pb = rec["lkind"], rec["net"], rec["seed"], rec["pbatch"]
+    if lk == "mixed":
+        return _run_sysmixed(rec, out)
     try:
         key = jax.random.PRNGKey(seed)
         dim = 0 if lk == "ode" else 1 + seed % 2
@@ -558,6 +576,73 @@ def run_sysplain(rec):
             w = ds.get(k_, 0.0) if k_ != "total" else ts
             if not bool(jnp.allclose(jnp.asarray(v), jnp.asarray(w), rtol=1e-9, atol=1e-12)):
                 bad.append(f"{k_}: plain {float(v):.12g} system {float(w):.12g}")
+        if bad:
+            out["ok"], out["detail"] = False, "; ".join(bad)
+    except Exception as ex:  # noqa
+        import os
+        import traceback
+        frames = traceback.extract_tb(ex.__traceback__)
+        if not any(os.sep + "jinns" + os.sep in f.filename and "/verif/" not in f.filename for f in frames):
+            raise
+        out["exc"] = f"{type(ex).__name__}: {str(ex)[:200]}"
+    return out
+
+
+def _run_sysmixed(rec, out):
+    """a MIXED system: a stationary unknown k(x) (first key, observed) and a non-stationary unknown u(t, x) (initial condition, observed),
+    one equation using both.  The initial-condition and observation terms of the system must be the weighted sums of the terms of the
+    single-network losses built from the same pieces (relative 1e-9 under x64)."""
+    import equinox as eqx
+    import jax
+    import jax.numpy as jnp
+    import jinns
+    from jinns.data._Batchs import PDENonStatioBatch
+    from jinns.data._DataGenerators import append_obs_batch
+    from jinns.loss import PDENonStatio
+
+    seed = rec["seed"]
+    try:
+        dim = 1
+        k1, k2 = jax.random.split(jax.random.PRNGKey(seed))
+        ks = jinns.utils.create_PINN(k1, ((eqx.nn.Linear, dim, 3), (jax.nn.tanh,), (eqx.nn.Linear, 3, 1)), "statio_PDE", dim)
+        un = jinns.utils.create_PINN(k2, ((eqx.nn.Linear, 1 + dim, 3), (jax.nn.tanh,), (eqx.nn.Linear, 3, 1)), "nonstatio_PDE", dim)
+        names = ("a_k", "u") if rec["net"] == "kfirst" else ("z_k", "u")         # the stationary unknown sorts first / last
+        nk, nu_ = names
+
+        class Eq(PDENonStatio):
+            def equation(self, t, x, nets, pd):
+                return nets[nu_](t, x, pd.extract_params(nu_)) * nets[nk](x, pd.extract_params(nk)) - jnp.sum(x)
+
+        n = 4
+        pts = jax.random.uniform(jax.random.PRNGKey(seed + 1), (n, 1 + dim), minval=0.1, maxval=0.9)
+        u0 = lambda x: jnp.array([0.1]) + jnp.sum(x)
+        u_dict = {nk: ks, nu_: un} if rec["net"] == "kfirst" else {nu_: un, nk: ks}
+        pdict = jinns.parameters.ParamsDict(nn_params={k: v.init_params() for k, v in u_dict.items()}, eq_params={})
+        wic, wobs = {nk: 1.0, nu_: 3.0}, {nk: 2.0, nu_: 5.0}
+        syst = jinns.loss.SystemLossPDE(u_dict=u_dict, dynamic_loss_dict={"e": Eq(Tmax=1)}, initial_condition_fun_dict={nk: None, nu_: u0},
+                                        loss_weights=jinns.loss.LossWeightsPDEDict(dyn_loss=1.0, initial_condition=wic, observations=wobs,
+                                                                                   norm_loss=1.0, boundary_loss=1.0),
+                                        params_dict=pdict)
+        batch = PDENonStatioBatch(times_x_inside_batch=pts, times_x_border_batch=None)
+        obs_k = {"pinn_in": pts[:, 1:], "val": jnp.linspace(0.2, 0.8, n)[:, None], "eq_params": {}}
+        obs_u = {"pinn_in": pts, "val": jnp.linspace(-0.3, 0.5, n)[:, None], "eq_params": {}}
+        batch = append_obs_batch(batch, {nk: obs_k, nu_: obs_u})
+        ts, ds = syst.evaluate(pdict, batch)
+        # single-network references
+        pk = jinns.parameters.Params(nn_params=ks.init_params(), eq_params={})
+        pu = jinns.parameters.Params(nn_params=un.init_params(), eq_params={})
+        lk_ = jinns.loss.LossPDEStatio(u=ks, dynamic_loss=None, params=pk)
+        lu_ = jinns.loss.LossPDENonStatio(u=un, dynamic_loss=None, initial_condition_fun=u0, params=pu)
+        from jinns.data._Batchs import PDEStatioBatch
+        bk = append_obs_batch(PDEStatioBatch(inside_batch=pts[:, 1:], border_batch=None), obs_k)
+        bu = append_obs_batch(PDENonStatioBatch(times_x_inside_batch=pts, times_x_border_batch=None), obs_u)
+        _, dk = lk_.evaluate(pk, bk)
+        _, du = lu_.evaluate(pu, bu)
+        want = dict(initial_condition=wic[nu_] * du["initial_condition"], observations=wobs[nk] * dk["observations"] + wobs[nu_] * du["observations"])
+        bad = [f"{k_}: single-network losses {float(v):.12g} system {float(ds[k_]):.12g}" for k_, v in want.items()
+               if not bool(jnp.allclose(jnp.asarray(v), jnp.asarray(ds[k_]), rtol=1e-9, atol=1e-12))]
+        if float(want["initial_condition"]) == 0.0 or float(want["observations"]) == 0.0:
+            raise RuntimeError("vacuous mixed-system reference")
         if bad:
             out["ok"], out["detail"] = False, "; ".join(bad)
     except Exception as ex:  # noqa
@@ -706,7 +791,13 @@ def run_gradbatch(task):
                     # None: the argument is omitted; "TREE": this term is given as a boolean tree next to the strings (documented mix)
                     strs = {field[t]: (mk_mask([bool(v) for v in m["mask"][k]]) if m["strs"][k] == "TREE" else m["strs"][k])
                             for k, t in enumerate(terms) if m["strs"][k] is not None}
-                    l = with_keys(DK.from_str(params=params, **strs))
+                    if m.get("pos"):      # every specification given POSITIONALLY, in the documented order of from_str
+                        order = dict(ode=["dyn_loss", "observations", "initial_condition"],
+                                     statio=["dyn_loss", "observations", "boundary_loss", "norm_loss"],
+                                     nonstatio=["dyn_loss", "observations", "boundary_loss", "norm_loss", "initial_condition"])[lkind]
+                        l = with_keys(DK.from_str(params, *[strs[f] for f in order]))
+                    else:
+                        l = with_keys(DK.from_str(params=params, **strs))
                 (tot, tvd), g = jax.value_and_grad(lambda p: l.evaluate(p, batch), has_aux=True)(params)
                 tv = [tvd[t] for t in terms]
             out["obs"] = dict(total=frac(tot), terms=[frac(v) for v in tv], grad=[fracs(v) for v in flat(g)])
@@ -866,7 +957,7 @@ def run_net(rec):
                 u = jinns.utils.create_HYPERPINN(jax.random.PRNGKey(0), eqx_list, rec["eq_type"], hp, 2, dim_x, input_transform=it,
                                                  output_transform=ot, shared_pinn_outputs=shared, eqx_list_hyper=hl)
                 if shared is not None:
-                    u = u[0]
+                    u = u[0] if rec["shared"] in ("first", "firstint") else u[1]
                 nn = _set_linear_ints(u.init_params(), rec["hyper"])
             full = jinns.parameters.Params(nn_params=nn, eq_params=eqp)
             p = nn if rec["pform"] == "bare" else full
